@@ -507,6 +507,113 @@ func corpus() [][]Op {
 	}
 }
 
+// windowCorpus: every combination of offset and limit from the edges of the
+// statement's range (up to 2^63-1) and of the store (len-1, len, len+1),
+// ascending and descending, with and without a class, on three entries.
+func windowCorpus() [][]Op {
+	setup := []Op{{Op: "add", K: h("a"), V: h("1")}, {Op: "addclass", K: h("b"), C: h("c"), V: h("2")},
+		{Op: "addclass", K: h("c"), C: h("c"), V: h("3")}}
+	edges := []uint64{0, 1, 2, 3, 4, 1 << 62, 1<<63 - 2, 1<<63 - 1}
+	var out [][]Op
+	for _, off := range edges {
+		ops := append([]Op{}, setup...)
+		for _, n := range edges {
+			ops = append(ops, Op{Op: "walkpartial", Off: off, N: n, Desc: false},
+				Op{Op: "walkpartial", Off: off, N: n, Desc: true},
+				Op{Op: "walkpartialclass", C: h("c"), Off: off, N: n, Desc: n%2 == 0})
+		}
+		out = append(out, ops)
+	}
+	return out
+}
+
+// overflowCorpus: offsets and limits of 2^63 and more. They are outside the
+// statement (and the backends differ there: the memory backend's offset+n
+// wraps around and its slice expression may panic, sqlite refuses the
+// literal); the observations are only compared with the models.
+func overflowCorpus() [][]Op {
+	setup := []Op{{Op: "add", K: h("a"), V: h("1")}, {Op: "add", K: h("b"), V: h("2")}, {Op: "add", K: h("c"), V: h("3")}}
+	small := []uint64{0, 1, 2, 3, 4, 1 << 62, 1<<63 - 1}
+	big := []uint64{1 << 63, 1<<63 + 1, 1<<64 - 3, 1<<64 - 2, 1<<64 - 1}
+	var out [][]Op
+	for _, b := range big {
+		ops := append([]Op{}, setup...)
+		for _, x := range small {
+			ops = append(ops, Op{Op: "walkpartial", Off: x, N: b}, Op{Op: "walkpartial", Off: b, N: x, Desc: true})
+		}
+		for _, b2 := range big {
+			ops = append(ops, Op{Op: "walkpartial", Off: b, N: b2}, Op{Op: "walkpartialclass", Off: b2, N: b})
+		}
+		out = append(out, ops)
+	}
+	return out
+}
+
+// classValueCorpus: classes (long, empty vs absent, case and LIKE
+// metacharacters), values that are not JSON stored through SetBytes /
+// AppendBytes and read back through Get / Mutate / walks, and keys whose byte
+// length and rune count fall on different sides of the 255-byte limit.
+func classValueCorpus() [][]Op {
+	long255 := h(strings.Repeat("c", 255))
+	long256 := h(strings.Repeat("c", 256))
+	long300 := h(strings.Repeat("c", 299) + "d")
+	r3 := "\xe4\xb8\xad"     // 3 bytes
+	r2 := "\xc3\xa9"         // 2 bytes
+	r4 := "\xf0\x9f\x98\x80" // 4 bytes
+	k := func(s string) string { return h(s) }
+	keyed := func(key string) []Op {
+		return []Op{{Op: "add", K: key, V: h("1")}, {Op: "has", K: key}, {Op: "get", K: key}, {Op: "setclass", K: key, C: h("c")},
+			{Op: "append", K: key, V: h("2")}, {Op: "mutate", K: key, M: "incr"}, {Op: "getbytes", K: key}, {Op: "count"},
+			{Op: "walkclass", C: h("c")}, {Op: "remove", K: key}, {Op: "count"}}
+	}
+	out := [][]Op{
+		// classes
+		{{Op: "addclass", K: k("a"), C: long255, V: h("1")}, {Op: "addclass", K: k("b"), C: long256, V: h("2")},
+			{Op: "addclass", K: k("c"), C: long300, V: h("3")}, {Op: "walkclass", C: long255}, {Op: "walkclass", C: long256},
+			{Op: "walkclass", C: long300}, {Op: "setclass", K: k("a"), C: long300}, {Op: "walkclass", C: long300},
+			{Op: "walkpartialclass", C: long300, Off: 1, N: 5, Desc: true}, {Op: "replace", K: k("c"), V: h("4")},
+			{Op: "walkclass", C: long300}, {Op: "walk"}},
+		{{Op: "add", K: k("a"), V: h("1")}, {Op: "addclass", K: k("b"), C: h(""), V: h("2")}, {Op: "addclass", K: k("c"), C: h("x"), V: h("3")},
+			{Op: "walkclass", C: h("")}, {Op: "setclass", K: k("c"), C: h("")}, {Op: "walkclass", C: h("")},
+			{Op: "setclass", K: k("a"), C: h("x")}, {Op: "walkclass", C: h("")}, {Op: "walkclass", C: h("x")},
+			{Op: "emplace", K: k("d"), V: h("4")}, {Op: "append", K: k("e"), V: h("5")}, {Op: "replace", K: k("f"), V: h("6")},
+			{Op: "walkclass", C: h("")}, {Op: "walkpartialclass", C: h(""), Off: 1, N: 2}},
+		{{Op: "addclass", K: k("a"), C: h("c"), V: h("1")}, {Op: "addclass", K: k("b"), C: h("C"), V: h("2")},
+			{Op: "addclass", K: k("c"), C: h("c%"), V: h("3")}, {Op: "addclass", K: k("d"), C: h("_"), V: h("4")},
+			{Op: "addclass", K: k("e"), C: h("cx"), V: h("5")}, {Op: "addclass", K: k("f"), C: h("c "), V: h("6")},
+			{Op: "walkclass", C: h("c")}, {Op: "walkclass", C: h("C")}, {Op: "walkclass", C: h("c%")}, {Op: "walkclass", C: h("_")},
+			{Op: "walkclass", C: h("%")}, {Op: "walkpartialclass", C: h("c"), Off: 0, N: 9}, {Op: "walkclass", C: h("c ")}},
+		// values that are not JSON
+		{{Op: "add", K: k("a"), V: h("1")}, {Op: "add", K: k("b"), V: h("2")}, {Op: "add", K: k("c"), V: h("3")},
+			{Op: "setbytes", K: k("b"), V: h("{")}, {Op: "get", K: k("b")}, {Op: "getbytes", K: k("b")}, {Op: "has", K: k("b")},
+			{Op: "walk"}, {Op: "walkpartial", Off: 0, N: 9, Desc: true}, {Op: "walkpartial", Off: 2, N: 1},
+			{Op: "walkpartial", Off: 1, N: 1}, {Op: "mutate", K: k("b"), M: "ok", V: h("5")}, {Op: "mutate", K: k("b"), M: "cancel"},
+			{Op: "get", K: k("b")}, {Op: "set", K: k("b"), V: h("5")}, {Op: "walk"}, {Op: "count"}},
+		{{Op: "append", K: k("a"), V: h("12")}, {Op: "append", K: k("a"), V: h("x")}, {Op: "get", K: k("a")}, {Op: "getbytes", K: k("a")},
+			{Op: "setbytes", K: k("a"), V: h("")}, {Op: "get", K: k("a")}, {Op: "walk"}, {Op: "setbytes", K: k("a"), V: h("007")},
+			{Op: "mutate", K: k("a"), M: "incr"}, {Op: "setbytes", K: k("a"), V: h("-4")}, {Op: "mutate", K: k("a"), M: "incr"},
+			{Op: "setbytes", K: k("a"), V: h("199")}, {Op: "mutate", K: k("a"), M: "incr"}, {Op: "get", K: k("a")},
+			{Op: "setbytes", K: k("a"), V: h(`"q"x`)}, {Op: "walkclass", C: h("")}, {Op: "addclass", K: k("0"), C: h("z"), V: h("1")},
+			{Op: "walk"}, {Op: "walkclass", C: h("z")}},
+	}
+	// keys at the limit: bytes vs runes
+	for _, key := range []string{
+		strings.Repeat(r3, 85),            // 255 bytes, 85 runes: accepted
+		strings.Repeat(r3, 86),            // 258 bytes, 86 runes: too long
+		strings.Repeat(r3, 84) + "abc",    // 255 bytes
+		strings.Repeat(r3, 84) + "abcd",   // 256 bytes, 88 runes: too long
+		strings.Repeat(r2, 127) + "a",     // 255 bytes
+		strings.Repeat(r2, 128),           // 256 bytes, 128 runes: too long
+		strings.Repeat(r4, 63) + "abc",    // 255 bytes
+		strings.Repeat(r4, 64),            // 256 bytes, 64 runes: too long
+		strings.Repeat(r4, 75),            // 300 bytes, 75 runes: too long
+		strings.Repeat("a", 254) + "\x7f", // 255 bytes
+	} {
+		out = append(out, keyed(k(key)))
+	}
+	return out
+}
+
 func genHistory(r *hx.Rng, maxLen int) []Op {
 	n := 1 + r.Intn(maxLen)
 	ops := make([]Op, n)
@@ -567,7 +674,7 @@ func main() {
 	i := 0
 	emit := func(stream string, ops []Op) {
 		c := Case{I: i, Stream: stream, Ops: ops, HK: hashTable(ops), Obs: st.runAll(ops)}
-		if !sameRes(c.Obs["mo"], c.Obs["so"]) || !sameRes(c.Obs["mu"], c.Obs["su"]) {
+		if stream != "overflow" && (!sameRes(c.Obs["mo"], c.Obs["so"]) || !sameRes(c.Obs["mu"], c.Obs["su"])) {
 			c.Min = st.shrink(ops)
 			c.MinObs = st.runAll(c.Min)
 		}
@@ -576,6 +683,15 @@ func main() {
 	}
 	for _, ops := range corpus() {
 		emit("corpus", ops)
+	}
+	for _, ops := range windowCorpus() {
+		emit("window", ops)
+	}
+	for _, ops := range classValueCorpus() {
+		emit("classvalue", ops)
+	}
+	for _, ops := range overflowCorpus() {
+		emit("overflow", ops)
 	}
 	for j := 0; j < *n; j++ {
 		if j%8 == 7 {
